@@ -104,6 +104,93 @@ def _lam_run(prog, fi, p_freq, p_order, tables, oval):
         return None
 
 
+def gather_form(prog, fi, e, at, depth=2):
+    """(table name, rows list name, cols list name) when `e` is table[array(rows), array(cols)] of two local position lists (directly, or
+    through a package helper that does exactly that), else None"""
+    from ..program import FuncInfo
+
+    def unwrap(x):
+        while True:
+            if isinstance(x, ast.Attribute) and x.attr == "T":
+                x = x.value
+            elif isinstance(x, ast.Call) and isinstance(x.func, ast.Attribute) and x.func.attr in ("reshape", "copy", "astype", "ravel", "flatten", "squeeze"):
+                x = x.func.value
+            elif isinstance(x, ast.Call) and astq.callee_name(prog, fi, x) in ("numpy.array", "numpy.asarray", "numpy.moveaxis", "numpy.transpose", "numpy.atleast_1d") and x.args:
+                x = x.args[0]
+            else:
+                return x
+    e = unwrap(e)
+    if isinstance(e, ast.Name) and at is not None:
+        try:
+            e = unwrap(astq.expr_at(fi, at, e))
+        except Exception:
+            return None
+    if isinstance(e, ast.Subscript) and isinstance(e.value, ast.Name):
+        el = astq.index_elts(e)
+        if len(el) == 2:
+            rc = [unwrap(x) for x in el]
+            if all(isinstance(x, ast.Name) for x in rc):
+                return e.value.id, rc[0].id, rc[1].id
+        return None
+    if isinstance(e, ast.Call) and depth > 0:
+        try:
+            r = prog.resolve_call(getattr(fi, "fi", fi), e)
+        except Exception:
+            r = None
+        if isinstance(r, FuncInfo):
+            m_, errs = astq.bind_args(r.node, e, bound=False)
+            rets = [n for n in ast.walk(r.node) if isinstance(n, ast.Return) and n.value is not None]
+            forms = [gather_form(prog, r, x.value, None, depth - 1) for x in rets]
+            forms = [g_ for g_ in forms if g_ is not None]
+            if len(forms) == 1 and not errs:
+                t_, r_, c_ = forms[0]
+                back = []
+                for nm in (t_, r_, c_):
+                    a_ = m_.get(nm)
+                    a_ = unwrap(a_) if isinstance(a_, ast.AST) else None
+                    if not isinstance(a_, ast.Name):
+                        return None
+                    back.append(a_.id)
+                return tuple(back)
+    return None
+
+
+def _gathered_items(prog, fi, pf, it, tables):
+    """values collected as (row, column) POSITIONS in two lists and gathered at the end (T[array(rows), array(cols)]): the same facts as
+    appends of T[row, col], one per pair of position appends that share their premises"""
+    from .. import lamdom
+    out = []
+    rets = [n for n in ast.walk(pf.node) if isinstance(n, ast.Return) and isinstance(n.value, ast.Tuple)]
+    seen = set()
+    for r in rets:
+        for el in r.value.elts:
+            try:
+                x = astq.expr_at(pf, r, el)
+            except Exception:
+                continue
+            g = gather_form(prog, pf, x, r)
+            if g is None and isinstance(el, ast.Name):
+                g = gather_form(prog, pf, el, r)
+            if g is None or g[0] not in tables or g in seen:
+                continue
+            seen.add(g)
+            t_, rl, cl = g
+            ra = [a for a in it.appends if a["list"] == rl and isinstance(a["value"], lamdom.Lam) and a["value"].scalar]
+            ca = [a for a in it.appends if a["list"] == cl and isinstance(a["value"], lamdom.Lam) and a["value"].scalar]
+            if not ra or len(ra) != len(ca):
+                continue
+            for a_r, a_c in zip(ra, ca):
+                if [(astq.dump(c) if isinstance(c, ast.AST) else c, p_) for c, p_ in a_r["path"]] != [(astq.dump(c) if isinstance(c, ast.AST) else c, p_) for c, p_ in a_c["path"]]:
+                    continue
+                body = ast.Subscript(value=ast.Name(id=t_, ctx=ast.Load()), slice=ast.Tuple(elts=[a_r["value"].body, a_c["value"].body], ctx=ast.Load()), ctx=ast.Load())
+                name_ = el.id if isinstance(el, ast.Name) else t_
+                ap = dict(a_r)
+                ap["list"] = name_
+                ap["value"] = lamdom.Lam([], body)
+                out.append(ap)
+    return out
+
+
 def explicit_branch_lam(prog, run, fi, pf, f, cfg, label, oval, p_freq, p_order, tF, kinds, tables, has_cov):
     """the rules of the explicit-order branch on the index-level model of the function (sa/lamdom.py): every appended value as a scalar
     expression T[row, col] in the request index, with the conditions under which it is appended - for loops, batched searches, closures
@@ -121,6 +208,12 @@ def explicit_branch_lam(prog, run, fi, pf, f, cfg, label, oval, p_freq, p_order,
         if acc is None or acc.col is None:
             continue
         items.append((ap, acc))
+    if len(items) < 3:
+        items = []
+        for ap in _gathered_items(prog, fi, pf, it, tables):
+            acc = astq.access_path(ap["value"].body, tables)
+            if acc is not None and acc.col is not None:
+                items.append((ap, acc))
     if len(items) < 3 or any(not ap["loops"] or ap["loops"][-1][0] is None for ap, acc in items):
         return False
     loopvars = {ap["loops"][-1][0] for ap, acc in items}
@@ -345,7 +438,12 @@ def slots(prog, run, fi, pf, f, cfg, seen_tables, kinds):
             if isinstance(el, ast.Constant) and el.value is None:
                 continue
             x = astq.expr_at(pf, r, el)
+            if isinstance(x, ast.Call) and astq.callee_name(prog, pf, x) in ("numpy.array", "numpy.empty", "numpy.zeros") and x.args \
+                    and ((isinstance(x.args[0], (ast.List, ast.Tuple)) and not x.args[0].elts) or (isinstance(x.args[0], ast.Constant) and x.args[0].value == 0)):
+                continue        # the empty result of an empty request
             lists = {n.id for n in ast.walk(x) if isinstance(n, ast.Name) and n.id in seen_tables}
+            if not lists and isinstance(el, ast.Name) and el.id in seen_tables:
+                lists = {el.id}     # values gathered from position lists are filed under the returned variable
             src_tables = set()
             for l in lists:
                 src_tables |= seen_tables[l]
